@@ -593,6 +593,40 @@ def real_job(item):
         P.Pool = S["orig_pool"]
 
 
+SCALE_SIZES = (5, 9, 33, 70, 140)
+
+
+def scale_chain(n, variant):
+    """A long task list: fast behaviours with failing ones at the start, early, in the middle and
+    near the end (so that a failing task is followed by healthy ones in any chunking)."""
+    bad_at = {0: "syn", 1: "lex", n // 3: "syn", n // 2: "lex", n - 2: "syn"} if variant == 0 else {2: "lex", n // 2 + 1: "syn"}
+    letters = []
+    for i in range(n):
+        letters.append(bad_at.get(i) or ("one", "empty", "two")[i % 3])
+    return tuple(enumerate(letters))
+
+
+def scale_job(item):
+    """The unpatched Parser.parse over a long task list with the real pool of size k, with the CPU
+    count the library sees answered by the harness (an environment answer like any other)."""
+    n, variant, k, cpus = item
+    import multiprocessing
+
+    S = setup()
+    P = S["P"]
+    P.Pool = functools.partial(S["orig_pool"], k)
+    saved = (os.cpu_count, multiprocessing.cpu_count)
+    os.cpu_count = lambda: cpus
+    multiprocessing.cpu_count = lambda: cpus
+    try:
+        tasks = make_tasks(scale_chain(n, variant))
+        obs = observe_parse(tasks)
+        return diff_entries(expected_entries(tasks), obs, "entry rules")[:6]
+    finally:
+        os.cpu_count, multiprocessing.cpu_count = saved
+        P.Pool = S["orig_pool"]
+
+
 def live_job(item):
     """One recorded schedule executed live: no memo, workers forked in Pool(), nothing patched."""
     chain, w, choices = item
@@ -798,8 +832,24 @@ def run(ctx):
             if cw is not None:
                 ctx.report(cw[0], None, what=cw[1])
 
+    # ---- scale: long task lists through the real pool, CPU count answered by the harness
+    scale_items = []
+    for n in SCALE_SIZES if ctx.tier == "thorough" else SCALE_SIZES[:4]:
+        for variant in (0, 1):
+            for k, cpus in ((2, 1), (3, 2), (16, 16)) if n <= 33 else ((16, 1), (16, 16)):
+                scale_items.append((n, variant, k, cpus))
+    scale_res = fork_jobs(scale_job, scale_items, 3, 4 * REAL_TIMEOUT, seed=ctx.seed)
+    for it, r in zip(scale_items, scale_res):
+        d = r[1] if r[0] == "ok" else ["%s: %s" % (r[0], repr(r[1:])[:300])]
+        if d:
+            c = {"kind": "scale", "tasks": it[0], "variant": it[1], "pool_size": it[2], "cpu_count_answer": it[3], "diff": d}
+            ctx.report(c, None, what="long task list (%d tasks, pool %d, cpu_count %d): %s" % (it[0], it[2], it[3], d[0]))
+    ctx.log("scale runs: %d (%.0f s)" % (len(scale_items), time.time() - t0))
+
     multi = {repr(list(k)): len(v) for k, v in outcomes_per_list.items() if len(v) > 1}
     cov = {
+        "scale_runs": len(scale_items),
+        "scale_rule": "task lists of %s behaviours with failing ones at positions 0, 1, n/3, n/2, n-2 (and a second placement) through the real pool with (pool size, os.cpu_count answer) in {(2,1),(3,2),(16,16)} resp. {(16,1),(16,16)}" % (list(SCALE_SIZES),),
         "states": tot["states"],
         "transitions": tot["edges"],
         "traces_validated_against_impl": len(real_items) - real_skipped,
@@ -874,6 +924,14 @@ def replay(ctx, path):
     r = core.fresh_call(_seq_single, chain)
     seq = r[1] if r[0] == "ok" else {"raised": r[1], "message": r[2]}
     kind = case["kind"]
+    if kind == "scale":
+        r = fork_jobs(scale_job, [(case["tasks"], case["variant"], case["pool_size"], case["cpu_count_answer"])], 1, 4 * REAL_TIMEOUT)[0]
+        d = r[1] if r[0] == "ok" else ["%s: %s" % (r[0], repr(r[1:])[:300])]
+        print("scale run:", d or "conforms")
+        if d:
+            print("VIOLATION property=%s replay=%s" % (ctx.pid, path))
+            return 1
+        return 0
     if kind == "sequential_reference":
         d = diff_entries(expected_entries(tasks), seq, "entry rules")
     elif kind == "real_pool":
